@@ -93,11 +93,25 @@ def units(tier):
             out.append({'op': o, 'mode': mode, 'tier': tier})
     for o in SORTS:
         out.append({'op': o, 'mode': 'plain', 'tier': tier})
+    out.append({'long': True, 'tier': tier})
     return out
+
+
+LARGE = [['take', 300], ['lag', 300], ['pad_start', 300, 9], ['pad_end', 300], ['batch', 300], ['batch', 257], ['start_with', list(range(300))]]
 
 
 def cases(unit):
     tier = unit['tier']
+    if unit.get('long'):
+        # sequences far longer than any parameter, and parameters beyond the interpreter's small-int range
+        for o in OPS + LARGE:
+            for n in (300, 599, 600, 601) if o in LARGE else (300,):
+                seq = [None if i % 7 == 3 else (i * 5) % 4 for i in range(n)]
+                for mode in ('api', 'plain'):
+                    if mode == 'plain' and o[0] not in PLAIN_OK:
+                        continue
+                    yield {'op': o, 'mode': mode, 'seq': seq}
+        return
     o = unit['op']
     if o[0] == 'sort':
         for seq in spaces.sequences([0, 1, 2], 6 if tier == 'quick' else 7):
